@@ -1,6 +1,7 @@
 //! Regression corpus: minimised past failures, one hex-encoded case per line, run first.
 pub fn load(suite: &str) -> Vec<Vec<u8>> {
-    let path = format!("/verif/corpus/{suite}.txt");
+    let root = std::env::var("VERIF_ROOT").unwrap_or_else(|_| "/verif".into());
+    let path = format!("{root}/corpus/{suite}.txt");
     let Ok(text) = std::fs::read_to_string(path) else { return vec![] };
     text.lines()
         .map(|l| l.trim())
